@@ -226,6 +226,7 @@ def reach(idx, thorough=False, max_configs=4000):
     seen = {config_key(root): []}
     queue = [[]]
     amb, errs, steps, deep = [], [], 0, 0
+    open_paths, acc_paths = [], []
     while queue and len(seen) < max_configs:
         path = queue.pop(0)
         for a in alpha:
@@ -240,6 +241,11 @@ def reach(idx, thorough=False, max_configs=4000):
             if k not in seen:
                 seen[k] = path + [a]
                 queue.append(path + [a])
+                is_open = any(c > 0 for (_, cs) in k[1] for c in cs)
+                if is_open:
+                    open_paths.append(path + [a])
+                elif pat.is_accepting():
+                    acc_paths.append(path + [a])
                 deep = max([deep] + [c for (_, cs) in k[1] for c in cs])
     # ladder: from every configuration with an open group, nest 10^k deeper and try every token again
     lefts = [a for a in alpha if a[0] == 3 and a[1] in ("(", "[", "{", "<")]
@@ -261,7 +267,43 @@ def reach(idx, thorough=False, max_configs=4000):
                         (amb if "Multiple transitions" in str(e) else errs).append((path + [l] * rung + [a], "err %d" % engine_real.err_code(e)))
     amb.sort(key=lambda pa: (len(pa[0]), sum(len(t) for t in pa[0])))
     return {"configs": len(seen), "steps": steps, "max_depth_class": deep, "alphabet": len(alpha), "classes": len([a for a in alpha if len(a) == 2]),
-            "ambiguous": amb[:5], "errors": errs[:5], "paths": list(seen.values())}
+            "ambiguous": amb[:5], "errors": errs[:5], "paths": list(seen.values()), "open_paths": open_paths, "acc_paths": acc_paths}
+
+
+def preempt_job(args):
+    """whole-sequence runs of the REAL find_all in which one attempt is pre-empted while its parentheses are open: [a path to a
+    configuration with an open group] + [a path to an accepting configuration with every group closed] + [a gap of 0 or 1 token] +
+    [a path to any configuration, with or without one more token in front] + [any token]; every attempt of find_all but the
+    first starts in the middle of the others (the configuration search above runs each attempt alone, on a new Pattern)"""
+    idx, seed, per, opens, accs, paths = args
+    import random
+    from codelimit.common.gsm import matcher
+    expr = captured()[idx][2]
+    alpha = alphabet_of(expr)
+    fresh = new_pattern(expr)
+    rnd = random.Random("preempt/%s/%s" % (idx, seed))
+    n, fails = 0, []
+    opens = sorted(opens, key=len)[:4]
+    accs = sorted(accs, key=len)[:4]
+    for o in opens:
+        for c in accs:
+            for g in [[]] + [[a] for a in alpha]:
+                for _ in range(per):
+                    q = list(rnd.choice(paths))
+                    if rnd.random() < 0.6:
+                        a = rnd.choice(alpha)
+                        pat, err = run_path(fresh, [mk_token(t[0], t[1], 0, None, t[2] if len(t) > 2 else None) for t in [a] + q])
+                        if pat is not None:
+                            q = [a] + q
+                    seq = list(o) + list(c) + g + q + [rnd.choice(alpha)]
+                    toks = [mk_token(t[0], t[1], i, None, t[2] if len(t) > 2 else None) for i, t in enumerate(seq)]
+                    n += 1
+                    try:
+                        matcher.find_all(expr, toks)
+                    except Exception as e:  # noqa
+                        fails.append(([list(t) for t in seq], "err %d" % engine_real.err_code(e)))
+    fails.sort(key=lambda f: len(f[0]))
+    return n, fails[:3]
 
 
 def _clone(pat):
@@ -318,6 +360,17 @@ def correspond(ctx):
             for (path, obs) in R["ambiguous"][:2] + R["errors"][:2]:
                 fails.append({"input": {"stream": "tokens", "language": lang, "role": role, "index": idx, "tokens": [list(t) for t in path]},
                               "found_by": "configuration search (state x depth class x token class)", "observed": obs, "required": "no exception (at most one transition applies)"})
+        # 1b. pre-emption sequences on the real find_all (several attempts alive, one pre-empted with an open group)
+        pj = [(idx, ctx.rng("preempt", idx).randrange(10 ** 9), ctx.pick(12, 120), R.get("open_paths", []), R.get("acc_paths", []), R.get("paths", []))
+              for idx, R in enumerate(reached) if R.get("open_paths") and R.get("acc_paths")]
+        for (idx, _s, _p, _o, _a, _q), (n, fs) in zip(pj, ex.map(preempt_job, pj)):
+            lang, role, _e = caps[idx]
+            evals += n
+            dist["%s/%s" % (lang, role)]["preempt_sequences"] = n
+            for (seq, obs) in fs[:2]:
+                fails.append({"input": {"stream": "tokens", "language": lang, "role": role, "index": idx, "tokens": seq},
+                              "found_by": "pre-emption sequences (open attempt + complete attempt + gap + next attempt)", "observed": obs,
+                              "required": "no exception (at most one transition applies)"})
         # 2. model against real find_all: bounded enumeration + random + one step from every reached configuration
         for idx, (lang, role, expr) in enumerate(caps):
             name = "%s/%s" % (lang, role)
@@ -358,7 +411,7 @@ def correspond(ctx):
     fails.sort(key=lambda f: len(f["input"].get("tokens", f["input"].get("code", ""))))
     return {
         "evaluations": evals, "distinct_nontrivial": len(nontrivial),
-        "rule": "for each of the %d shipped header / follow-up expressions: (1) configuration search with the real Pattern.consume: every reachable (automaton state, depth class 0,1,2,>=3 of every Balanced counter) x every abstract token (kind x distinguished value x every sub-type of the kind), plus from every configuration with an open group a ladder of %s further opening parentheses x every token; (2) against the model: all sequences up to the stated length over the abstract tokens its predicates can distinguish (kind x distinguished values, plus identifier / other / parentheses), exhaustively, + random longer ones + the path to every reached configuration extended by every token; non-trivial = distinct sequences with at least one match" % (len(caps), ctx.pick("10, 100", "10 .. 10^4")),
+        "rule": "for each of the %d shipped header / follow-up expressions: (1) configuration search with the real Pattern.consume: every reachable (automaton state, depth class 0,1,2,>=3 of every Balanced counter) x every abstract token (kind x distinguished value x every sub-type of the kind), plus from every configuration with an open group a ladder of %s further opening parentheses x every token; (1b) whole sequences on the real find_all in which an attempt is pre-empted while a group is open: [one of the 4 shortest paths to a configuration with an open group] + [one of the 4 shortest paths to an accepting configuration with all groups closed] + [no / every abstract token as a gap] + [a path to a random configuration, in 60 %% of the cases with one more random token in front] + [a random token], %d per combination; (2) against the model: all sequences up to the stated length over the abstract tokens its predicates can distinguish (kind x distinguished values, plus identifier / other / parentheses), exhaustively, + random longer ones + the path to every reached configuration extended by every token; non-trivial = distinct sequences with at least one match" % (len(caps), ctx.pick("10, 100", "10 .. 10^4"), ctx.pick(12, 120)),
         "samples": samples[:6], "exhaustive": True, "distribution": dist,
         "disagreements": dis[:50], "oracle_failures": fails[:50],
         "generated_hashes": {"Gen/Languages.lean": _sha(os.path.join(common.LEAN, "CodeLimit", "Gen", "Languages.lean"))},
